@@ -306,7 +306,12 @@ Section Interp.
         let present := match get h1' s with Some (NDict sm) => map fst sm | _ => [] end in
         let missing := filter (fun na => negb (mem_ustr (fst na) present))
                               (match lookup c (defaults W) with Some ds => ds | None => [] end) in
-        let fresh_id := u "<id-" ++ ustr_of_Z (Z.of_nat (length h1')) ++ u ">" in
+        (* the default id keeps the type prefix (is_marking() looks at it) *)
+        let ty := match lookup c (defaults W) with
+                  | Some ds => match lookup (u "type") ds with Some (AStr t) => t | _ => [] end
+                  | None => []
+                  end in
+        let fresh_id := ty ++ u "--<id-" ++ ustr_of_Z (Z.of_nat (length h1')) ++ u ">" in
         let h2 := match update_items h1' s (map (fun na => (fst na, VA (if ustr_eqb (fst na) (u "id") then AStr fresh_id else snd na))) missing) with
                   | Some hh => hh | None => h1' end in
         (* stix2.v21.base._Observable.__init__: self._inner["id"] = id_ *)
